@@ -237,6 +237,8 @@ class Expander:
             if isinstance(s, ast.Assign):
                 for t in s.targets:
                     self._bind(t, s.value)
+                    if isinstance(t, ast.Subscript) and isinstance(t.value, ast.Name):
+                        opaque.add(t.value.id)      # a container written by subscript is an accumulator, not its initial value
             elif isinstance(s, ast.AnnAssign) and s.value is not None:
                 self._bind(s.target, s.value)
             elif isinstance(s, ast.AugAssign) and isinstance(s.target, ast.Name):
@@ -255,6 +257,9 @@ class Expander:
                                 opaque.add(x.id)
             elif isinstance(s, ast.NamedExpr) and isinstance(s.target, ast.Name):
                 self._bind(s.target, s.value)
+            elif isinstance(s, ast.Call) and isinstance(s.func, ast.Attribute) and s.func.attr in ('append', 'extend', 'add', 'update', 'insert') \
+                    and isinstance(s.func.value, ast.Name):
+                opaque.add(s.func.value.id)      # an accumulator is not its initial value
         for nm in opaque | self.params:
             self.defs.pop(nm, None)
         # a definition that mentions its own name is loop-carried: opaque
